@@ -323,6 +323,10 @@ def run(ctx):
     vac = None
     if cov["distinct_observations"] < 5:
         vac = f"only {cov['distinct_observations']} distinct filter results"
+    # one large input (30000 events) through this property's entry points
+    from .. import big
+    viols = list(viols) + big.violations("C03", ctx.scratch)
+    cov["big_input_events"] = big.N
     return {"level": LEVEL, "coverage": cov, "violations": viols,
             "vacuous": vac,
             "assumptions": [
@@ -332,6 +336,9 @@ def run(ctx):
 
 
 def replay(case, ctx):
+    if case.get("kind") == "big":
+        from .. import big
+        return big.violations("C03", ctx.scratch)
     cfg = case.get("config", {})
     drv = FilterDriver(feats=tuple(cfg.get("feats", ("deform", "area_um"))),
                        polys=tuple(cfg.get("polys", (0, 1))))
